@@ -8,8 +8,12 @@ package sftp
 import (
 	"encoding/binary"
 	"errors"
+	"fmt"
 	"io"
+	"net"
+	"os"
 	"sync"
+	"syscall"
 )
 
 type vfDir int
@@ -28,6 +32,37 @@ func (d vfDir) String() string {
 
 var errVfCut = errors.New("vf: injected transport failure")
 var errVfClosed = errors.New("vf: use of closed connection")
+
+// vfFaultErr returns the i-th member of a fixed pool of error values a real transport, file or handler object
+// reports when it fails: the harness's own sentinel, and values that carry a meaning elsewhere (interrupted /
+// temporary / timeout errnos, bare and wrapped; end-of-file values; stale handle; closed pipe). A failure is a
+// failure whatever its value: injected faults draw from this pool instead of always using the same sentinel.
+func vfFaultErr(i int) error {
+	pool := vfFaultPool()
+	if i < 0 {
+		i = -i
+	}
+	return pool[i%len(pool)]
+}
+
+func vfFaultPool() []error {
+	return []error{
+		errVfCut,
+		syscall.EINTR,
+		&os.PathError{Op: "write", Path: "conn", Err: syscall.EINTR},
+		syscall.ETIMEDOUT,
+		&net.OpError{Op: "read", Net: "vf", Err: os.ErrDeadlineExceeded},
+		fmt.Errorf("session closed: %w", io.EOF),
+		io.ErrUnexpectedEOF,
+		syscall.EAGAIN,
+		&os.PathError{Op: "read", Path: "obj", Err: syscall.ESTALE},
+		io.ErrClosedPipe,
+		syscall.EPIPE,
+		&os.SyscallError{Syscall: "write", Err: syscall.ECONNRESET},
+		fmt.Errorf("backend: %w", syscall.ENOSPC),
+		syscall.EIO,
+	}
+}
 
 // vfHalf is one direction of the stream.
 type vfHalf struct {
@@ -53,6 +88,9 @@ type vfHalf struct {
 	lateWait   func()
 	failWriteK int // 0 = none; the k-th (1-based) Write call fails
 	failWErr   error
+	transK     int // 0 = none; the k-th Write call is reported as failed once (transient), later calls are unaffected
+	transErr   error
+	transFull  bool // the bytes of that call are delivered all the same
 	onCut      func()
 
 	tap     func(p []byte)
@@ -95,6 +133,13 @@ func (h *vfHalf) write(p []byte) (nn int, rerr error) {
 	}
 	if h.wclosed {
 		return 0, errVfClosed
+	}
+	if h.transK > 0 && h.writes == h.transK {
+		if !h.transFull {
+			return 0, h.transErr
+		}
+		late = true
+		h.lateErr = h.transErr
 	}
 	if h.lateFailK > 0 && h.writes == h.lateFailK {
 		// this write goes out completely, and is reported as failed afterwards (a transport that learns of the
@@ -301,6 +346,16 @@ func (c vfConnCtl) FailWrite(d vfDir, k int, err error, onCut func()) {
 	h := c.half(d)
 	h.mu.Lock()
 	h.failWriteK, h.failWErr, h.onCut = h.writes+k, err, onCut
+	h.mu.Unlock()
+}
+
+// TransientFailWrite: the k-th write call from now on is reported as failed with err, once; the transport keeps
+// working afterwards. full: the bytes of that call reach the peer all the same (the failure report is about a
+// write that did take effect), otherwise none of them does.
+func (c vfConnCtl) TransientFailWrite(d vfDir, k int, err error, full bool) {
+	h := c.half(d)
+	h.mu.Lock()
+	h.transK, h.transErr, h.transFull = h.writes+k, err, full
 	h.mu.Unlock()
 }
 
